@@ -22,7 +22,7 @@ func (st *State) exec(in ssa.Instruction) []*State {
 	switch x := in.(type) {
 	case *ssa.DebugRef:
 	case *ssa.Alloc:
-		id := "%" + st.Fn.Name() + ":" + x.Name()
+		id := st.nm(x)
 		o := &Obj{ID: id, Type: x.Type().(*types.Pointer).Elem()}
 		st.zero[id] = true
 		// a re-executed alloc (never within one path, loops are cut) starts clean
@@ -88,7 +88,7 @@ func (st *State) exec(in ssa.Instruction) []*State {
 			ip.Hooks.Index(st, x, lin.Const(at.Len()), idx, true)
 		}
 		_ = base
-		st.vals[x] = ip.symbolic(x.Type(), ("%" + st.Fn.Name() + ":" + x.Name()), st)
+		st.vals[x] = ip.symbolic(x.Type(), st.nm(x), st)
 	case *ssa.Slice:
 		st.vals[x] = st.slice(x)
 	case *ssa.MakeSlice:
@@ -97,7 +97,7 @@ func (st *State) exec(in ssa.Instruction) []*State {
 		if ip.Hooks != nil {
 			ip.Hooks.MakeSlice(st, x, n)
 		}
-		id := "%" + st.Fn.Name() + ":" + x.Name()
+		id := st.nm(x)
 		// element contents are not tracked as zero: callees and library calls fill buffers
 		st.vals[x] = Val{K: KSlice, S: &SliceV{ID: id, Len: n, Cap: c, IsNil: No}}
 	case *ssa.Convert:
@@ -113,13 +113,13 @@ func (st *State) exec(in ssa.Instruction) []*State {
 	case *ssa.ChangeInterface:
 		st.vals[x] = st.eval(x.X)
 	case *ssa.SliceToArrayPointer:
-		st.vals[x] = ip.symbolic(x.Type(), ("%" + st.Fn.Name() + ":" + x.Name()), st)
+		st.vals[x] = ip.symbolic(x.Type(), st.nm(x), st)
 	case *ssa.Extract:
 		t := st.eval(x.Tuple)
 		if t.K == KTuple && x.Index < len(t.Tup) {
 			st.vals[x] = t.Tup[x.Index]
 		} else {
-			st.vals[x] = ip.symbolic(x.Type(), ("%" + st.Fn.Name() + ":" + x.Name()), st)
+			st.vals[x] = ip.symbolic(x.Type(), st.nm(x), st)
 		}
 	case *ssa.Call:
 		return st.call(x)
@@ -140,29 +140,29 @@ func (st *State) exec(in ssa.Instruction) []*State {
 			if ov := st.eval(x.X); ov.Sym != "" {
 				okKey = "isa:" + ov.Sym + ":" + types.TypeString(x.AssertedType, nil)
 			}
-			st.vals[x] = Val{K: KTuple, Tup: []Val{ip.symbolic(x.AssertedType, ("%" + st.Fn.Name() + ":" + x.Name()), st),
+			st.vals[x] = Val{K: KTuple, Tup: []Val{ip.symbolic(x.AssertedType, st.nm(x), st),
 				{K: KBool, B: &Cond{Op: CPred, Key: okKey}}}}
 		} else {
-			st.vals[x] = ip.symbolic(x.AssertedType, ("%" + st.Fn.Name() + ":" + x.Name()), st)
+			st.vals[x] = ip.symbolic(x.AssertedType, st.nm(x), st)
 		}
 	case *ssa.Lookup:
 		if x.CommaOk {
 			el := x.X.Type().Underlying().(*types.Map).Elem()
-			st.vals[x] = Val{K: KTuple, Tup: []Val{ip.symbolic(el, ("%" + st.Fn.Name() + ":" + x.Name()), st),
+			st.vals[x] = Val{K: KTuple, Tup: []Val{ip.symbolic(el, st.nm(x), st),
 				{K: KBool, B: &Cond{Op: CPred, Key: ip.fresh("mapok")}}}}
 		} else {
-			st.vals[x] = ip.symbolic(x.Type(), ("%" + st.Fn.Name() + ":" + x.Name()), st)
+			st.vals[x] = ip.symbolic(x.Type(), st.nm(x), st)
 		}
 	case *ssa.Next:
 		tt := x.Type().(*types.Tuple)
 		tup := []Val{{K: KBool, B: &Cond{Op: CPred, Key: ip.fresh("rangeok")}}}
 		for i := 1; i < tt.Len(); i++ {
-			tup = append(tup, ip.symbolic(tt.At(i).Type(), ("%"+st.Fn.Name()+":"+x.Name()), st))
+			tup = append(tup, ip.symbolic(tt.At(i).Type(), st.nm(x), st))
 		}
 		st.vals[x] = Val{K: KTuple, Tup: tup}
 	case ssa.Value:
 		// MakeClosure, MakeMap, MakeChan, Range, Select …
-		st.vals[x] = ip.symbolic(x.Type(), ("%" + st.Fn.Name() + ":" + x.Name()), st)
+		st.vals[x] = ip.symbolic(x.Type(), st.nm(x), st)
 		if _, ok := x.(*ssa.MakeMap); ok {
 			st.vals[x] = Val{K: KUnknown, Sym: ip.fresh("map")}
 		}
@@ -199,7 +199,7 @@ func (st *State) unop(x *ssa.UnOp) Val {
 		}
 		a := st.asAddr(pv, x.X.Type())
 		if !a.ok {
-			return ip.symbolic(x.Type(), ("%" + st.Fn.Name() + ":" + x.Name()), st)
+			return ip.symbolic(x.Type(), st.nm(x), st)
 		}
 		return st.load(a)
 	case token.NOT:
@@ -213,11 +213,11 @@ func (st *State) unop(x *ssa.UnOp) Val {
 			return IntVal(v.F.Scale(-1))
 		}
 	}
-	return ip.symbolic(x.Type(), ("%" + st.Fn.Name() + ":" + x.Name()), st)
+	return ip.symbolic(x.Type(), st.nm(x), st)
 }
 
 func (st *State) opaqueInt(x ssa.Value, lo, hi int64) Val {
-	name := ("%" + st.Fn.Name() + ":" + x.Name())
+	name := st.nm(x)
 	tlo, thi, _ := intBounds(x.Type(), st.ip.sizes())
 	if lo < tlo {
 		lo = tlo
@@ -349,7 +349,7 @@ func (st *State) binop(x *ssa.BinOp) Val {
 			return Val{K: KBool, B: &Cond{Op: COr, X: a.B, Y: b.B}}
 		}
 	}
-	return ip.symbolic(x.Type(), ("%" + st.Fn.Name() + ":" + x.Name()), st)
+	return ip.symbolic(x.Type(), st.nm(x), st)
 }
 
 // wrapCheck: unsigned arithmetic that may wrap is not linear; keep the form only when the result
@@ -492,7 +492,7 @@ func (st *State) convert(x *ssa.Convert) Val {
 	if v.K == KSlice {
 		return v
 	}
-	return ip.symbolic(x.Type(), ("%" + st.Fn.Name() + ":" + x.Name()), st)
+	return ip.symbolic(x.Type(), st.nm(x), st)
 }
 
 func (st *State) sliceLenCap(v Val, t types.Type) (ln, cp lin.Form, id string, ok bool) {
@@ -611,7 +611,7 @@ func (st *State) call(x *ssa.Call) []*State {
 			}
 		}
 	}
-	resName := "%" + st.Fn.Name() + ":" + x.Name()
+	resName := st.nm(x)
 	// builtins
 	if b, ok := cc.Value.(*ssa.Builtin); ok {
 		st.vals[x] = st.builtin(x, b.Name(), args)
@@ -654,6 +654,9 @@ func (st *State) call(x *ssa.Call) []*State {
 			}
 			st.vals[x] = Val{K: KBool, B: &Cond{Op: CPred, Key: "pure:" + f.Name() + "(" + strings.Join(parts, ",") + ")"}}
 			return []*State{st}
+		}
+		if ip.InlineCalls && st.depth < 12 && !ip.inProgress[f] {
+			return st.inlineCall(x, f, args)
 		}
 		sum := ip.Summarize(f)
 		if !sum.Opaque && len(sum.Outcomes) > 0 {
@@ -816,7 +819,7 @@ func (st *State) builtin(x *ssa.Call, name string, args []Val) Val {
 			return Val{K: KSlice, S: &SliceV{ID: ip.fresh("append"), Len: lin.Sym(ls), Cap: lin.Sym(ls)}}
 		}
 	}
-	return ip.symbolic(x.Type(), ("%" + st.Fn.Name() + ":" + x.Name()), st)
+	return ip.symbolic(x.Type(), st.nm(x), st)
 }
 
 func (st *State) iterCall(x *ssa.Call, method string, args []Val) Val {
@@ -830,13 +833,19 @@ func (st *State) iterCall(x *ssa.Call, method string, args []Val) Val {
 	if ip.Hooks != nil {
 		ip.Hooks.IterCall(st, x, method, it, cur, argp)
 	}
-	resName := "%" + st.Fn.Name() + ":" + x.Name()
+	resName := st.nm(x)
 	switch method {
 	case "NextByte":
 		errSym := resName + ".err"
 		st.pending[errSym] = pendingAdv{it: it.ID, adv: lin.Const(1)}
 		b := resName + ".b"
 		ip.SetBounds(b, 0, 255)
+		if ip.Oracle != nil {
+			if v, ok := ip.Oracle.Byte(st, it, cur, b); ok {
+				st.Events = append(st.Events, Event{Kind: "fetch", Obj: it.ID, Off: cur, Width: lin.Const(1), Val: v, Pos: x.Pos(), ID: b})
+				return Val{K: KTuple, Tup: []Val{v, st.fetchErr(it, cur, lin.Const(1), errSym)}}
+			}
+		}
 		if ip.TrackBits {
 			st.Events = append(st.Events, Event{Kind: "fetch", Obj: it.ID, Off: cur, Width: lin.Const(1), Val: IntVal(lin.Sym(b)), Pos: x.Pos(), ID: b})
 		}
@@ -846,6 +855,24 @@ func (st *State) iterCall(x *ssa.Call, method string, args []Val) Val {
 		errSym := resName + ".err"
 		st.pending[errSym] = pendingAdv{it: it.ID, adv: n}
 		ev := resName + ".ev"
+		if ip.Oracle != nil {
+			blob, known := ip.Oracle.Bytes(st, it, cur, n)
+			if known {
+				sv := &SliceV{ID: ev, Len: n, Cap: n, Event: ev, IsNil: No}
+				if blob != "" {
+					sv.Blob = blob
+				}
+				if n.IsConst() && n.C >= 0 && n.C <= 64 && blob == "" {
+					for k := int64(0); k < n.C; k++ {
+						if bv, ok := ip.Oracle.Byte(st, it, cur.AddC(k), fmt.Sprintf("%s.[%d]", ev, k)); ok {
+							st.mem[fmt.Sprintf("%s.[%d]", ev, k)] = bv
+						}
+					}
+				}
+				st.Events = append(st.Events, Event{Kind: "fetch", Obj: it.ID, Off: cur, Width: n, Val: Val{K: KSlice, S: sv}, Pos: x.Pos(), ID: ev})
+				return Val{K: KTuple, Tup: []Val{{K: KSlice, S: sv}, st.fetchErr(it, cur, n, errSym)}}
+			}
+		}
 		if ip.TrackBits {
 			st.Events = append(st.Events, Event{Kind: "fetch", Obj: it.ID, Off: cur, Width: n, Val: Val{K: KSlice, S: &SliceV{ID: ev, Len: n, Cap: n, Event: ev, IsNil: No}}, Pos: x.Pos(), ID: ev})
 		}
@@ -881,7 +908,7 @@ func (st *State) iterCall(x *ssa.Call, method string, args []Val) Val {
 // applySummary forks the path over the callee's outcomes.
 func (st *State) applySummary(x *ssa.Call, f *ssa.Function, sum *Summary, args []Val) []*State {
 	ip := st.ip
-	inst := "<" + st.Fn.Name() + ":" + x.Name() + ">"
+	inst := st.pfx + "<" + st.Fn.Name() + ":" + x.Name() + ">"
 	// substitution for parameter-rooted names
 	paramVal := map[string]Val{}
 	for i, p := range f.Params {
@@ -1762,4 +1789,54 @@ func (st *State) emitVal(v Val, t types.Type) Val {
 		v.Bits = vec
 	}
 	return v
+}
+
+// nm is the name of an SSA value on this path: unique per call frame when calls are inlined.
+func (st *State) nm(x ssa.Value) string { return st.pfx + "%" + st.Fn.Name() + ":" + x.Name() }
+
+// inlineCall interprets the callee's body in the caller's state (InlineCalls): the exits of the callee become the
+// continuations of the call.
+func (st *State) inlineCall(x *ssa.Call, f *ssa.Function, args []Val) []*State {
+	ip := st.ip
+	savedFn, savedPfx := st.Fn, st.pfx
+	st.pfx = st.pfx + "<" + st.Fn.Name() + ":" + x.Name() + ">"
+	st.Fn = f
+	st.depth++
+	for i, p := range f.Params {
+		if i < len(args) {
+			st.vals[p] = args[i]
+		}
+	}
+	var exits []*State
+	sum := &Summary{Fn: f}
+	ip.explore(f, st, sum, func(es *State, ret *ssa.Return, res []Val) {
+		es.Fn, es.pfx = savedFn, savedPfx
+		es.depth--
+		switch len(res) {
+		case 0:
+			es.vals[x] = Val{K: KTuple}
+		case 1:
+			es.vals[x] = res[0]
+		default:
+			es.vals[x] = Val{K: KTuple, Tup: append([]Val{}, res...)}
+		}
+		exits = append(exits, es)
+	})
+	return exits
+}
+
+// fetchErr decides the error of a fetch of n bytes at cur when the stream is known to be long enough (or too short);
+// otherwise the error stays pending on the branch that tests it.
+func (st *State) fetchErr(it *Obj, cur, n lin.Form, errSym string) Val {
+	room := st.IterLen(it).Sub(cur).Sub(n)
+	if st.ProveSimplified(room) && st.ProveSimplified(n) {
+		delete(st.pending, errSym)
+		st.setCursor(it, cur.Add(n))
+		return Val{K: KErr, ErrNil: Yes}
+	}
+	if st.ProveSimplified(room.Scale(-1).AddC(-1)) {
+		delete(st.pending, errSym)
+		return Val{K: KErr, ErrNil: No, Sym: "new:fetch-failed"}
+	}
+	return Val{K: KErr, Sym: errSym}
 }
